@@ -220,7 +220,8 @@ class PyMachine:
     def op_rbin(self, op):
         a = self.env[op["a"]]
         k = self.mk_rhs({"k": "val", "py": op.get("py", "num"), "v": op["lhs"]})
-        r = k * a if op["name"] == "mul" else k / a
+        nm = op["name"]
+        r = k * a if nm == "mul" else (k / a if nm == "div" else (k + a if nm == "add" else k - a))
         if r is NotImplemented:
             raise TypeError("NotImplemented")
         self.env[op["dst"]] = r
